@@ -1416,6 +1416,91 @@ def check_C06(work):
     return finish("C06", out, t0, "model_checking", cov, BASE_ASSUME)
 
 
-CHECKS = {"C01": check_C01, "C02": check_C02, "C03": check_C03, "C04": check_C04, "C06": check_C06, "C08": check_C08, "C09": check_C09, "C10": check_C10, "C11": check_C11, "C12": check_C12, "C20": check_C20, "C13": check_C13, "C14": check_C14, "C15": check_C15, "C19": check_C19, "C05": check_C05, "C07": check_C07, "C16": check_C16, "C17": check_C17, "C18": check_C18}
+# ---------------------------------------------------------------------------
+# conformance self-check (not a property): the binding between specification and code
+
+def check_conformance(work):
+    """(1) TLC simulates Kismet.tla's coverage configurations and collects the (label, call, result) edges of the control
+    flow it reaches; (2) real executions (plain and sharded, maintenance always/never, directories absent, adversary) are
+    validated by TraceKismet, which reports the edges the real code took; (3) negative controls: a corrupted field and a
+    dropped event class must be rejected (filesystem-model mismatch and/or model drift and/or monitor violation)."""
+    t0 = time.time()
+    out = Outcome("conformance")
+    # (1) model edges
+    model_edges = set()
+    for cfgname in ("MCcover1", "MCcover2", "MCcover3", "MCcover3b"):
+        module = "MCcover3" if cfgname == "MCcover3b" else cfgname
+        r = run_mc(work, module, cfgname + ".cfg", cfgname, workers=1, timeout=600, simulate="num=%d" % Q(300, 3000))
+        if r["violated"] or not r["cover"]:
+            raise ToolError("coverage configuration %s failed: %s\n%s" % (cfgname, r["violated"], r["out"][-1500:]))
+        model_edges |= set(tuple(e) for e in r["cover"])
+    # (2) real edges
+    jobs = []
+    for fr in fronts(1, ("plain", "sharded")):
+        fams = [([S("k1"), G("k2")], [P("k2"), T("k1"), P("k1")]), ([P("k1"), G("k3")], [S("k1"), T("k3")])]
+        for i, progs in enumerate(fams):
+            for pres, tag in ((False, "nodirs"), (True, "dirs")):
+                jobs.append(conc_job("CF-%s-%d-%s" % (fr[0], i, tag), "%s:%s" % (fr[0], tag), fr, progs, rnd(Q(40, 400), seed() + i), draw=ALWAYS,
+                                     presetup=pres, prefill=((("k3", "old3"),) if pres else ())))
+                big = fronts(100000, (fr[0],))[0]
+                jobs.append(conc_job("CF-%s-%d-%s-nm" % (fr[0], i, tag), "%s:%s:nomaint" % (fr[0], tag), big, progs, rnd(Q(20, 200), seed() + 50 + i),
+                                     draw=NEVER, presetup=pres, prefill=((("k1", "old1"),) if pres else ())))
+        jobs.append(conc_job("CF-%s-adv" % fr[0], "%s:adv" % fr[0], fr, ([S("k1"), G("k3")], [P("k3"), T("k1")]), rnd(Q(20, 100), seed() + 9), draw=ALWAYS,
+                             prefill=(("k3", "old3"),), adv=[{"at": 9, "path": "W/k3" if fr[0] == "plain" else "W/.kismet_0000/k3"}]))
+    # stale and young debris in the temp directory
+    jobs.append(seq_job("CF-debris", "plain:debris", plain("W", 1), [op("set", "a"), op("put", "b"), op("get", "a")],
+                        world=[op("mkfile", path="@TOP@/W/.kismet_temp/stale", raw="x", mt_ago=4000.0, at_ago=4000.0),
+                               op("mkfile", path="@TOP@/W/.kismet_temp/young", raw="y")], draw=ALWAYS))
+    files = run_tracer(work, jobs, tag="cf")
+    real_edges = set()
+    ops = 0
+    drifts = []
+    for cfgname in (None, "TraceKismetSharded.cfg"):
+        for r in validate_traces(work, "TraceKismet", files, {"monitors": []}, tag="cf" + ("s" if cfgname else "p"), cfgname=cfgname):
+            real_edges |= set(tuple(e) for e in r["cover"])
+            for v in r["verdicts"]:
+                ops += v.get("ops", 0)
+                if v.get("drift"):
+                    drifts.append(dict(job=v["job"], run=v["run"], **v["drift"][0]))
+    fsm = validate_traces(work, "TraceProps", files, {"monitors": ["DirValid"]}, tag="cfp")
+    fsmis = sum(1 for r in fsm for v in r["verdicts"] if v.get("fsmis"))
+    # (3) negative controls on one recorded run
+    src = files[0]
+    lines = open(src).read().splitlines()
+    first_end = next(i for i, l in enumerate(lines) if '"e":"endrun"' in l)
+    one = [json.loads(l) for l in lines[:first_end + 1]]
+    controls = {}
+
+    def run_control(name, evs):
+        f = work.path("ctl-%s.ndjson" % name)
+        with open(f, "w") as g:
+            g.write("\n".join(json.dumps(e) for e in evs) + "\n")
+        a = run_trace_tlc(work, "TraceProps", f, {"monitors": ["DirValid", "ReadOnlyFirst"]}, "ctlp" + name)
+        b = run_trace_tlc(work, "TraceKismet", f, {"monitors": []}, "ctlk" + name)
+        b2 = run_trace_tlc(work, "TraceKismet", f, {"monitors": []}, "ctls" + name, cfgname="TraceKismetSharded.cfg")
+        rejected = any(v.get("fsmis") or v.get("viol") for v in a["verdicts"]) or any(v.get("drift") for v in b["verdicts"] + b2["verdicts"])
+        controls[name] = bool(rejected)
+    flipped = [dict(e, res="ENOENT") if (e.get("e") == "sys" and e.get("call") in ("rename", "link") and e.get("res") == "ok") else e for e in one]
+    run_control("flip-res", flipped)
+    run_control("drop-chmod", [e for e in one if not (e.get("e") == "sys" and e.get("call") == "chmod" and e.get("ph") == "lib")])
+    run_control("drop-utimens", [e for e in one if not (e.get("e") == "sys" and e.get("call") == "utimens" and e.get("ph") == "lib")])
+    run_control("unmodified", one)
+    bad_controls = [k for k, v in controls.items() if (k == "unmodified") == v]
+    covered = model_edges & real_edges
+    nruns, nev = count_runs(files)
+    cov = dict(states=max(1, sum(r["states"] for r in fsm)), transitions=max(1, nev), traces_validated_against_impl=nruns,
+               samples=[sorted(list(model_edges - real_edges))[:10]],
+               model_edges=len(model_edges), real_edges=len(real_edges), model_edges_taken_by_real_code=len(covered),
+               model_edges_not_taken=sorted(list(model_edges - real_edges)), real_edges_not_reached_by_simulation=sorted(list(real_edges - model_edges)),
+               ops_conforming_to_Kismet_tla=ops, drifts=drifts[:5], fsmodel_mismatches=fsmis, negative_controls=controls)
+    write_evidence("conformance", TIER, "model_checking", cov, time.time() - t0, 0, BASE_ASSUME)
+    print("conformance: %d/%d model edges taken by real executions; %d real edges; %d ops conform; drift=%d fsmis=%d controls=%s" %
+          (len(covered), len(model_edges), len(real_edges), ops, len(drifts), fsmis, controls))
+    if drifts or fsmis or bad_controls:
+        raise ToolError("conformance self-check failed: drifts=%s fsmis=%s controls=%s" % (drifts[:2], fsmis, bad_controls))
+    return 0
+
+
+CHECKS = {"conformance": check_conformance, "C01": check_C01, "C02": check_C02, "C03": check_C03, "C04": check_C04, "C06": check_C06, "C08": check_C08, "C09": check_C09, "C10": check_C10, "C11": check_C11, "C12": check_C12, "C20": check_C20, "C13": check_C13, "C14": check_C14, "C15": check_C15, "C19": check_C19, "C05": check_C05, "C07": check_C07, "C16": check_C16, "C17": check_C17, "C18": check_C18}
 
 NOT_APPLICABLE = {}
